@@ -37,3 +37,18 @@ package testutil
 //@   ensures [pools-exist] result == nil ==> (forall k int :: { attachments[k] } 0 <= k && k < len(attachments) ==> (attachments[k].Pool in ec.pools))
 //@   ensures [error-no-effect] result != nil ==> snapshot(ec.attached) == old(snapshot(ec.attached))
 //@   ensures [attached] result == nil ==> (forall k int :: { attachments[k] } 0 <= k && k < len(attachments) ==> linked(ec, attachments[k].Account, attachments[k].Pool))
+//
+// DetachPools: afterwards none of the detachments is linked (one removal suffices because links
+// are distinct), and the representation invariant is kept.
+//@ func (*EphemeralContractor).DetachPools props C15
+//@   nopanic
+//@   requires ec != nil && ec.attached != nil && linksDistinct(ec) && linksApart(ec)
+//@   loop "range detachments"
+//@     invariant [rep] linksDistinct(ec) && linksApart(ec)
+//@     invariant [done] forall k int :: { detachments[k] } 0 <= k && k <= rangeindex ==> !linked(ec, detachments[k].Account, detachments[k].Pool)
+//@   loop "range *" #2
+//@     invariant [scan] forall i int :: { links[i] } 0 <= i && i <= rangeindex ==> links[i] != d.Pool
+//@     invariant [same] links == ec.attached[d.Account]
+//@   ensures [rep] linksDistinct(ec) && linksApart(ec)
+//@   ensures [detached] forall k int :: { detachments[k] } 0 <= k && k < len(detachments) ==> !linked(ec, detachments[k].Account, detachments[k].Pool)
+//@   ensures [no-error] result == nil
